@@ -325,14 +325,15 @@ Definition build_regn (allc : list cand) (alls : list subr) (r : regn) : res reg
     do _ <- check_collection l locations;
     Ok (mkRegn (rcands r) (rsubs r) l)
   end.
-(* add_region: `regions cannot overlap`, then the first existing region the new one is less than *)
-Fixpoint region_index (l : list regn) (x : regn) (i : nat) : res nat :=
+(* add_region: `regions cannot overlap` when ANY existing region overlaps the new one, then the index of the first
+   existing region the new one is less than *)
+Fixpoint region_pos (l : list regn) (x : regn) (i : nat) : nat :=
   match l with
-  | [] => Ok i
-  | e :: rest =>
-    if overlap (rloc x) (rloc e) then Err E_Value else
-    if lt_loc (rloc x) (rloc e) then Ok i else region_index rest x (S i)
+  | [] => i
+  | e :: rest => if lt_loc (rloc x) (rloc e) then i else region_pos rest x (S i)
   end.
+Definition region_index (l : list regn) (x : regn) (i : nat) : res nat :=
+  if existsb (fun e => overlap (rloc x) (rloc e)) l then Err E_Value else Ok (region_pos l x i).
 Definition reload_regn (n : Z) (allc : list cand) (alls : list subr) (acc : res (list regn)) (r : regn)
   : res (list regn) :=
   do l <- acc;
